@@ -34,12 +34,24 @@ type c01Mon struct {
 	postAction Action
 	budget     int // max attempts allowed for this kind
 	hasFb      bool
+	ctx        *vCtx
+	mayCancel  bool
+	cancelled  bool
+}
+
+// maybeCancel: with mayCancel set, the context may be cancelled from inside any callback
+func (m *c01Mon) maybeCancel() {
+	if m.mayCancel && !m.cancelled && vNondet[bool]("cancelHere") {
+		m.ctx.cancel(false)
+		m.cancelled = true
+	}
 }
 
 func (m *c01Mon) prep(s *SharedStore) (any, error) {
 	vAssert(m.state == c01Init, "prep-first-and-once")
 	vAssert(s == m.store, "prep-gets-the-run-store")
 	m.preps++
+	m.maybeCancel()
 	if vNondet[bool]("prepFail") {
 		m.state = c01Dead
 		m.endErr = vNewErr()
@@ -54,6 +66,7 @@ func (m *c01Mon) exec(p any) (any, error) {
 	vAssert(vSame(p, m.prepTok), "exec-gets-prep-value")
 	m.execs++
 	vAssert(m.execs <= m.budget, "attempts-within-budget")
+	m.maybeCancel()
 	if vNondet[bool]("execFail") {
 		m.state = c01ExecFailed
 		m.lastErr = vNewErr()
@@ -70,6 +83,7 @@ func (m *c01Mon) fallback(p any, err error) (any, error) {
 	vAssert(vSame(p, m.prepTok), "fallback-gets-prep-value")
 	vAssert(err == m.lastErr, "fallback-gets-last-error")
 	m.fbs++
+	m.maybeCancel()
 	if vNondet[bool]("fbFail") {
 		m.state = c01Dead
 		m.endErr = vNewErr()
@@ -89,6 +103,7 @@ func (m *c01Mon) post(s *SharedStore, p, e any) (Action, error) {
 	vAssert(vSame(p, m.prepTok), "post-gets-prep-value")
 	vAssert(vSame(e, m.resultTok), "post-gets-that-result")
 	m.posts++
+	m.maybeCancel()
 	if vNondet[bool]("postFail") {
 		m.state = c01Dead
 		m.endErr = vNewErr()
@@ -107,6 +122,14 @@ func (m *c01Mon) finish(act Action, err error) {
 	vAssert(m.preps == 1, "prep-exactly-once")
 	vAssert(m.posts <= 1, "post-at-most-once")
 	vAssert((err == nil) == (m.state == c01Posted), "nil-error-iff-post-succeeded")
+	// post runs IF the exec phase produced a result without error (cancelled or not)
+	vAssert(m.state != c01ExecOK && m.state != c01FbOK, "post-runs-when-the-exec-phase-succeeded")
+	if !m.cancelled {
+		vAssert(m.state != c01Prepped, "exec-follows-a-successful-prep")
+		vAssert(!(m.state == c01ExecFailed && m.execs < m.budget), "attempts-continue-until-success-or-budget")
+	} else {
+		vCover("cancelled-during-the-run")
+	}
 	if err == nil {
 		vCover("run-ok")
 		if m.postAction == "" {
@@ -117,7 +140,7 @@ func (m *c01Mon) finish(act Action, err error) {
 		}
 	} else {
 		vAssert(act == "", "error-comes-with-empty-action")
-		if m.state == c01ExecFailed {
+		if m.state == c01ExecFailed && !m.cancelled {
 			vCover("all-failed-no-fallback-result")
 			vAssert(m.execs == m.budget && m.posts == 0, "post-not-called-after-exec-failure")
 		}
@@ -134,7 +157,7 @@ func (m *c01Mon) finish(act Action, err error) {
 }
 
 func c01NewMon(budget int) *c01Mon {
-	return &c01Mon{store: NewSharedStore(), prepTok: vPayload("prep"), fbTok: &vTok{id: 999}, budget: budget}
+	return &c01Mon{store: NewSharedStore(), prepTok: vPayload("prep"), fbTok: &vTok{id: 999}, budget: budget, ctx: vNewCtx()}
 }
 
 func c01Budget() int {
@@ -162,7 +185,7 @@ func VH_C01_struct() {
 	N := c01Budget()
 	m := c01NewMon(N)
 	n := &c01StructNode{BaseNode: NewBaseNode(WithMaxRetries(N)), m: m}
-	act, err := Run(vNewCtx(), n, m.store)
+	act, err := Run(m.ctx, n, m.store)
 	m.finish(act, err)
 }
 
@@ -182,7 +205,7 @@ func VH_C01_structNoFb() {
 	N := c01Budget()
 	m := c01NewMon(N)
 	n := &c01NoFbNode{BaseNode: NewBaseNode(WithMaxRetries(N)), m: m}
-	act, err := Run(vNewCtx(), n, m.store)
+	act, err := Run(m.ctx, n, m.store)
 	vAssert(m.fbs == 0, "no-user-fallback-exists")
 	m.finish(act, err)
 }
@@ -199,7 +222,7 @@ func (n *c01PlainNode) Post(ctx context.Context, s *SharedStore, p, e any) (Acti
 func VH_C01_plain() {
 	vUnwind(3)
 	m := c01NewMon(1)
-	act, err := Run(vNewCtx(), &c01PlainNode{m: m}, m.store)
+	act, err := Run(m.ctx, &c01PlainNode{m: m}, m.store)
 	vAssert(m.execs <= 1, "plain-node-gets-one-attempt")
 	m.finish(act, err)
 }
@@ -222,7 +245,7 @@ func (n *c01PlainRetryNode) GetWait() time.Duration { return 0 }
 func VH_C01_plainRetry() {
 	N := c01Budget()
 	m := c01NewMon(N)
-	act, err := Run(vNewCtx(), &c01PlainRetryNode{m: m, n: N}, m.store)
+	act, err := Run(m.ctx, &c01PlainRetryNode{m: m, n: N}, m.store)
 	m.finish(act, err)
 }
 
@@ -251,7 +274,7 @@ func VH_C01_optResult() {
 			return m.post(s, p.Value(), e.Value())
 		}),
 	)
-	act, err := Run(vNewCtx(), n, m.store)
+	act, err := Run(m.ctx, n, m.store)
 	m.finish(act, err)
 }
 
@@ -265,7 +288,7 @@ func VH_C01_bldAny() {
 		WithExecFuncAny(func(ctx context.Context, p any) (any, error) { return m.exec(p) }).
 		WithExecFallbackFunc(func(p any, err error) (any, error) { return m.fallback(p, err) }).
 		WithPostFuncAny(func(ctx context.Context, s *SharedStore, p, e any) (Action, error) { return m.post(s, p, e) })
-	act, err := Run(vNewCtx(), n, m.store)
+	act, err := Run(m.ctx, n, m.store)
 	m.finish(act, err)
 }
 
@@ -279,7 +302,7 @@ func VH_C01_inFlow() {
 	flow := NewFlow(first)
 	flow.Connect(first, "go", probe)
 	flow.Connect(probe, DefaultAction, after)
-	err := flow.Run(vNewCtx(), m.store)
+	err := flow.Run(m.ctx, m.store)
 	vAssert(first.visits == 1, "first-node-ran-once")
 	vAssert((err == nil) == (m.state == c01Posted), "flow-nil-error-iff-node-succeeded")
 	vAssert(m.preps == 1 && m.posts <= 1, "lifecycle-inside-flow")
@@ -295,4 +318,16 @@ func VH_C01_inFlow() {
 		vCover("callback-error-ends-run")
 		vAssert(after.visits == 0, "nothing-runs-after-a-failed-node")
 	}
+}
+
+// the lifecycle under cancellation from inside any callback: post still runs exactly when the exec
+// phase produced a result (a cancellation does not turn a successful attempt into a lost result)
+func VH_C01_cancel() {
+	N := c01Budget()
+	m := c01NewMon(N)
+	m.mayCancel = true
+	m.prepTok = &vTok{id: 3}
+	n := &c01StructNode{BaseNode: NewBaseNode(WithMaxRetries(N)), m: m}
+	act, err := Run(m.ctx, n, m.store)
+	m.finish(act, err)
 }
